@@ -44,14 +44,26 @@ pub mod watch {
     }
 }
 pub struct TableBootstrap { pub state_rx: watch::Receiver<bootstrap::State> }
-// tokio::sync::oneshot stand-in (bootstrap waiters; C15 is not claimed)
+// tokio::sync::oneshot stand-in (bootstrap waiters): sending consumes the sender and touches nothing else
 pub mod oneshot {
+    use super::*;
     pub struct Sender<T> { pub t: core::marker::PhantomData<T> }
+    impl<T> Sender<T> {
+        #[verifier::external_body]
+        pub fn send(self, t: T) -> Result<(), T> { unimplemented!() }
+    }
 }
 // R-abs: `for (_, tx) in self.bootstrap_txs.drain() { tx.send(()).unwrap_or(()) }` (HashMap::drain / oneshot are outside the subset;
 // notifying waiters touches no state any claimed property depends on)
 #[verifier::external_body]
-pub fn vx_notify_all(txs: &mut HashMap<u64, oneshot::Sender<()>>) { unimplemented!() }
+pub fn vx_notify_all(txs: &mut HashMap<u64, oneshot::Sender<()>>)
+    ensures final(txs)@.len() == 0
+{ unimplemented!() }
+// TRUSTED: u64 keys obey the hash-map key model (vstd states it for the primitive integer types)
+/// C15: the waiters' keys are below the next key to be handed out, so a new waiter never takes the key of one still waiting
+pub open spec fn waiters_ok(h: DhtHandler) -> bool {
+    forall|k: u64| #[trigger] h.bootstrap_txs@.contains_key(k) ==> k < h.next_bootstrap_txs_id
+}
 
 /// C18 invariant: every pending table-refresh timeout is the one the refresh object remembers -- hence at most one
 pub open spec fn chain_ok(r: TableRefresh, t: Timer<ScheduledTaskCheck>) -> bool {
@@ -184,7 +196,7 @@ impl TableRefresh {
 }
 
 // ================= handler.rs =================
-//@begin type src/handler.rs - struct DhtHandler drop=running,command_rx,next_bootstrap_txs_id
+//@begin type src/handler.rs - struct DhtHandler drop=running,command_rx
 pub struct DhtHandler {
     pub this_node_id: NodeId,
     pub timer: Timer<ScheduledTaskCheck>,
@@ -196,6 +208,7 @@ pub struct DhtHandler {
     pub routing_table: Arc<Mutex<RoutingTable>>,
     pub active_stores: AnnounceStorage,
     pub bootstrap: TableBootstrap,
+    pub next_bootstrap_txs_id: u64,
     pub bootstrap_txs: HashMap<u64, oneshot::Sender<()>>,
     pub initial_bootstrap_done: bool,
     pub pending_lookups: Vec<StartLookup>,
@@ -310,8 +323,7 @@ impl DhtHandler {
             // find_node / get_peers replies are longer than the query (node lists, token, values) and echo its transaction id:
             // (a) for ids of up to 32 bytes (and, get_peers, up to 800 bytes of compact peers = 100 IPv4 / 38 IPv6) they fit;
             !old(self).read_only && message.transaction_id@.len() <= 32 && (message.body matches MessageBody::Request(Request::FindNode(_))) ==> blen(reply(delta(old(tr).ev, final(tr).ev))) <= 1500, // @C17.find_node_reply_fits_1500_bytes_for_ids_up_to_32_bytes
-            !old(self).read_only && message.transaction_id@.len() <= 32 && (message.body matches MessageBody::Request(Request::GetPeers(_)))
-                && values_len(reply(delta(old(tr).ev, final(tr).ev)).body->Response_0.values@) <= 800 ==> blen(reply(delta(old(tr).ev, final(tr).ev))) <= 1500, // @C17.get_peers_reply_fits_1500_bytes_for_ids_up_to_32_bytes_and_100_ipv4_or_38_ipv6_peers
+            !old(self).read_only && message.transaction_id@.len() <= 32 && (message.body matches MessageBody::Request(Request::GetPeers(_))) && values_len(reply(delta(old(tr).ev, final(tr).ev)).body->Response_0.values@) <= 800 ==> blen(reply(delta(old(tr).ev, final(tr).ev))) <= 1500, // @C17.get_peers_reply_fits_1500_bytes_for_ids_up_to_32_bytes_and_100_ipv4_or_38_ipv6_peers
             // (b) the unconditional statements of the property (recorded known findings on the current tree: the id is echoed whole, `values` is not capped)
             !old(self).read_only && blen(message) <= 1500 && (message.body matches MessageBody::Request(Request::FindNode(_))) ==> blen(reply(delta(old(tr).ev, final(tr).ev))) <= 1500, // @C17.find_node_reply_fits_1500_bytes
             !old(self).read_only && blen(message) <= 1500 && (message.body matches MessageBody::Request(Request::GetPeers(_))) ==> blen(reply(delta(old(tr).ev, final(tr).ev))) <= 1500, // @C17.get_peers_reply_fits_1500_bytes
@@ -724,6 +736,7 @@ impl DhtHandler {
         requires old(self).hinv(),
         ensures final(self).hinv(), final(self).refresh == old(self).refresh, no_new_refresh(old(self).timer, final(self).timer),
             final(self).initial_bootstrap_done == old(self).initial_bootstrap_done, final(self).pending_lookups == old(self).pending_lookups,
+            final(self).bootstrap_txs == old(self).bootstrap_txs, final(self).next_bootstrap_txs_id == old(self).next_bootstrap_txs_id,
             starts(final(tr).ev) == starts(old(tr).ev).push((lookup.info_hash, lookup.announce)), // @C16.search_is_started_with_the_requested_target
             no_replies(old(tr).ev, final(tr).ev),
     {
@@ -766,6 +779,7 @@ impl DhtHandler {
         requires old(self).hinv(),
         ensures final(self).hinv(), final(self).frame_non_refresh(*old(self)),
             final(self).initial_bootstrap_done == old(self).initial_bootstrap_done, final(self).pending_lookups == old(self).pending_lookups,
+            final(self).bootstrap_txs == old(self).bootstrap_txs, final(self).next_bootstrap_txs_id == old(self).next_bootstrap_txs_id,
             final(self).one_refresh_pending(), // @C18.next_round_scheduled_6s_ahead
             only_requests_and_yields(old(tr).ev, final(tr).ev), final(tr).ev.len() <= old(tr).ev.len() + 8, // @C18.round_is_at_most_4_queries
     {
@@ -775,11 +789,37 @@ impl DhtHandler {
     }
 //@end
 
+//@begin fn src/handler.rs impl:DhtHandler handle_check_bootstrap props=C15
+    pub fn handle_check_bootstrap(&mut self, tx: oneshot::Sender<()>)
+        ensures
+            // a caller asking after completion is told at once and nothing is stored
+            old(self).spec_bootstrapped() ==> final(self).bootstrap_txs@ == old(self).bootstrap_txs@ && final(self).next_bootstrap_txs_id == old(self).next_bootstrap_txs_id, // @C15.asked_after_completion_told_at_once
+            // a caller asking earlier is added to the waiters under a key no waiting caller holds: nobody waiting is dropped or replaced
+            !old(self).spec_bootstrapped() && waiters_ok(*old(self)) ==> waiters_ok(*final(self))
+                && !old(self).bootstrap_txs@.contains_key(old(self).next_bootstrap_txs_id)
+                && final(self).bootstrap_txs@ == old(self).bootstrap_txs@.insert(old(self).next_bootstrap_txs_id, tx), // @C15.a_new_waiter_never_replaces_a_waiting_one
+    {
+        broadcast use vstd::std_specs::hash::group_hash_axioms;
+        if self.is_bootstrapped() {
+            tx.send(()).unwrap_or(())
+        } else {
+            let id = self.next_bootstrap_txs_id;
+            proof {
+                // ASSUMPTION A-waiters: fewer than 2^64 calls of bootstrapped() before the bootstrap completes
+                assume(self.next_bootstrap_txs_id < u64::MAX);
+            }
+            self.next_bootstrap_txs_id += 1;
+            self.bootstrap_txs.insert(id, tx);
+        }
+    }
+//@end
+
 //@begin fn src/handler.rs impl:DhtHandler handle_bootstrap_success rules=R-deasync props=C18,C16
     pub fn handle_bootstrap_success(&mut self, Tracked(tr): Tracked<&mut Trace>)
         requires old(self).hinv(),
         ensures final(self).hinv(), // @C18.single_refresh_chain
             final(self).one_refresh_pending(), // @C18.one_round_per_bootstrap_completion
+            final(self).bootstrap_txs@.len() == 0 && waiters_ok(*final(self)), // @C15.every_waiter_is_handed_to_the_notifier
             // C16: every search queued before the initial bootstrap finished is started now, in order; none stays queued
             final(self).initial_bootstrap_done && final(self).pending_lookups@.len() == 0, // @C16.queue_emptied_at_bootstrap_completion
             starts(final(tr).ev) == starts(old(tr).ev) + Seq::new(old(self).pending_lookups@.len(), |i: int| (old(self).pending_lookups@[i].info_hash, old(self).pending_lookups@[i].announce)), // @C16.queued_searches_started_at_bootstrap_completion
@@ -796,6 +836,7 @@ impl DhtHandler {
         let pending_lookups = std::mem::take(&mut self.pending_lookups);
         for lookup in it: pending_lookups
             invariant self.hinv(), self.initial_bootstrap_done, self.pending_lookups@.len() == 0,
+                self.bootstrap_txs@.len() == 0,
                 it.snapshot@.remaining() == q, 0 <= it.index@ <= q.len(),
                 starts(tr.ev) == starts(ev0) + Seq::new(it.index@ as nat, |i: int| (q[i].info_hash, q[i].announce)),
                 no_replies(ev0, tr.ev),
